@@ -40,6 +40,9 @@ type Req struct {
 	Hdr  int    `json:"hdr"`  // forwarded headers hash
 	Op   string `json:"op"`   // query | mutation | subscription
 	Work string `json:"work"` // ok | err (a failure this request would also hit on its own)
+	// WFail: this request's own client writer fails every Write (broken pipe). That is the request's own problem:
+	// it must never become another participant's error, and the shared result is still published.
+	WFail bool `json:"wfail"`
 }
 
 type Step struct {
@@ -168,7 +171,10 @@ func buildResponse(ds resolve.DataSource, q Req, level string) *resolve.GraphQLR
 type capture struct {
 	buf   []byte
 	scrub func()
+	fail  bool
 }
+
+var errClientWrite = errors.New("verif: this client's connection is broken (write failed)")
 
 // Write is the client writer. Before it copies p it lets another, unrelated request run to completion on the
 // same resolver (scrub): arenas released by earlier participants are recycled (the pools are LIFO) and
@@ -179,6 +185,11 @@ func (c *capture) Write(p []byte) (int, error) {
 		c.scrub()
 	}
 	c.buf = append(c.buf, p...)
+	if c.fail {
+		// the bytes that were attempted are kept: the verdict about WHAT was to be delivered does not depend on
+		// whether this client could still receive it
+		return 0, errClientWrite
+	}
 	return len(p), nil
 }
 
@@ -270,8 +281,11 @@ func runSchedule(s Schedule, evw *bufio.Writer) Result {
 					outs[i] = "panic:" + fmt.Sprint(p)
 				}
 			}()
-			w := &capture{scrub: scrub}
+			w := &capture{scrub: scrub, fail: q.WFail}
 			_, err := resolver.ArenaResolveGraphQLResponse(rc, resp, w)
+			if err != nil && q.WFail && errors.Is(err, errClientWrite) {
+				err = nil // its own broken connection: judge the bytes it was handed
+			}
 			if err != nil {
 				outs[i] = "err:" + err.Error()
 			} else {
